@@ -273,6 +273,28 @@ func runTreeConc(c *Case) *Obs {
 						bad <- "reader lost a key"
 						return
 					}
+					// ranges whose bounds admit only this (read-only) key, next to keys that are being written
+					for _, it := range []iterator.Iterator[tree.KVPair[int, int]]{
+						m.Range(tree.Included(k), tree.Included(k)), m.Range(tree.Included(k), tree.Excluded(k+1)),
+						m.RangeReverse(tree.Included(k), tree.Included(k)), m.RangeReverse(tree.Excluded(k-1), tree.Included(k)),
+					} {
+						n := 0
+						for {
+							p, ok := it.Next()
+							if !ok {
+								break
+							}
+							n++
+							if p.Key != k || p.Value != -1 {
+								bad <- "a range over a key nobody writes yielded something else"
+								return
+							}
+						}
+						if n != 1 {
+							bad <- "a range over one present key did not yield exactly that key"
+							return
+						}
+					}
 				}
 			}
 		}()
